@@ -527,6 +527,12 @@ def process_block(blk, report, twin=None):
         secs = list(blk.sections)
         if twin == "entry":
             secs.append(("entry", ["proof { assert(false); } // VACUITY-PROBE entry %s\n" % blk.name], 0))
+        if twin and twin.startswith("loop:"):
+            # single probe: loop:<fn>:<n>
+            _, fn_, n_ = twin.split(":")
+            if fn_ == blk.name:
+                secs.append(("loop %d body-start" % int(n_),
+                             ["proof { assert(false); } // VACUITY-PROBE loop%d %s\n" % (int(n_), blk.name)], 0))
         if twin == "loops":
             for li in range(len(loops_in(m2, bo, bc))):
                 secs.append(("loop %d body-start" % (li + 1),
@@ -579,7 +585,7 @@ def generate(unit, twin=None, outdir=None):
                             "last": cur_line + n - 1, "tags": val.tags, "file": val.path})
             out_lines.append(txt)
             cur_line += n
-    suffix = "" if not twin else "_twin_" + twin
+    suffix = "" if not twin else "_twin_" + re.sub(r"\W", "_", twin)
     out_path = os.path.join(outdir, unit + suffix + ".rs")
     text = "".join(out_lines)
     if twin == "entry":
@@ -628,7 +634,7 @@ def main():
     import argparse
     ap = argparse.ArgumentParser()
     ap.add_argument("unit")
-    ap.add_argument("--twin", choices=["entry", "loops"])
+    ap.add_argument("--twin")
     ap.add_argument("--outdir")
     a = ap.parse_args()
     try:
